@@ -180,6 +180,11 @@ func racUF0(name string, a ...*big.Int) *big.Int {
 			return new(big.Int)
 		}
 		return z
+	case "uf_bit":
+		if a[1].Sign() < 0 || !a[1].IsInt64() {
+			return z
+		}
+		return z.SetUint64(uint64(a[0].Bit(int(a[1].Int64()))))
 	case "uf_modsqrt":
 		if z.ModSqrt(a[0], a[1]) == nil {
 			return new(big.Int)
